@@ -118,4 +118,11 @@ CHECKS = {
    text=("For every mesh of the family (zoo, smoothed, hex lattices, sheared, seeded Delaunay, annuli) x 3 area patterns x 3 dual-length patterns x 6 vector potentials: L = D G, a^T D = 0, a^T B = l^T, diag(a) L symmetric, negative semi-definite "
          "(dense eigen-decomposition) with exactly one constant null vector per connected component, diag(a) L_A Hermitian, G exact on {1, x, y}; every operator is also compared entrywise with explicit neighbour sums from the raw arrays (1e-12; observed 6e-16)."),
    note="matrix identities cover all site/edge fields by linearity; 'any vector potential' rests on the affine dependence of each entry on one link variable (three distinct phases per edge suffice, five are used); triangulations outside the family not explored"),
+ "C20": dict(
+   engine="mc-core", category="exploration", design_ref="DESIGN.md 3/C20",
+   technique="basis enumeration (complete by linearity) of sheet currents x exhaustive evaluation-point shapes, unit systems and call forms, against direct Biot-Savart / Coulomb sums in SI; loop closed form vs quadrature; conversion round trips",
+   text=("biot_savart_2d is evaluated for a unit sheet current at every site in x and in y (a basis) plus superpositions, for 8 evaluation-point shapes (single point as list/array, (m,2)+scalar z, below the film, far field), 9 unit pairs, scalar and vector forms, "
+         "against longdouble SI sums (1e-9; observed 1e-15). Solution.field_at_position / vector_potential_at_position are checked on real solutions whose site currents are replaced by basis and superposed currents: SI sums, scalar form = z component, "
+         "sum = parts, additivity, applied part, with/without units, every positional form. The closed-form loop potential is compared with numerical quadrature at 108 positions incl. the axis, in-plane and far field; H<->B conversions for 4 unit pairs x 3 input forms x registry given/not given must round trip and equal B/mu0."),
+   note="points in the film plane and loop positions within 1e-2 R of the axis (other than the axis) are outside the alphabet; current distributions other than the basis rest on linearity (spot-checked by superpositions)"),
 }
